@@ -177,6 +177,10 @@ class ControlTheory(Theory):
             v = pos_d[0]
             if isinstance(v, SeqV):
                 return [(st, IntV(v.n))]
+            if isinstance(v, (StrV, EncodedV)):
+                n = fresh("strlen", I)
+                st.assume(n >= 0)
+                return [(st, IntV(n))]
         if name in self.hooks:
             return self.hooks[name](st, fr, pos, kws, node)
         raise Unsupported(f"builtin {name}()")
